@@ -131,7 +131,21 @@ func (s *summaries) mustPred(set objSet) callPred {
 // function of set is reachable over static call edges (calls, go, defer,
 // and creation of closures).
 func (s *summaries) staticMayReach(set objSet) map[*ssa.Function]bool {
+	return s.staticMayReachAvoid(set, nil)
+}
+
+// staticMayReachAvoid is staticMayReach on the call graph with the functions
+// in stop removed (paths through them do not count).
+func (s *summaries) staticMayReachAvoid(set objSet, stop map[*ssa.Function]bool) map[*ssa.Function]bool {
 	key := setKey(set)
+	if len(stop) > 0 {
+		var ks []string
+		for f := range stop {
+			ks = append(ks, f.String())
+		}
+		sort.Strings(ks)
+		key += "//" + strings.Join(ks, "|")
+	}
 	if r, ok := s.mayReach[key]; ok {
 		return r
 	}
@@ -140,6 +154,13 @@ func (s *summaries) staticMayReach(set objSet) map[*ssa.Function]bool {
 	rev := map[*ssa.Function][]*ssa.Function{}
 	direct := map[*ssa.Function]bool{}
 	for _, fn := range fns {
+		top := fn
+		for top.Parent() != nil {
+			top = top.Parent()
+		}
+		if stop[top] {
+			continue
+		}
 		for _, b := range fn.Blocks {
 			for _, in := range b.Instrs {
 				switch x := in.(type) {
@@ -187,7 +208,11 @@ func (s *summaries) staticMayReach(set objSet) map[*ssa.Function]bool {
 // mayPred matches call-like instructions that call a function of set directly
 // or call/spawn a function from which one is statically reachable.
 func (s *summaries) mayPred(set objSet) callPred {
-	reach := s.staticMayReach(set)
+	return s.mayPredAvoid(set, nil)
+}
+
+func (s *summaries) mayPredAvoid(set objSet, stop map[*ssa.Function]bool) callPred {
+	reach := s.staticMayReachAvoid(set, stop)
 	return func(ci ssa.CallInstruction) bool {
 		if set.hasCallee(ci) {
 			return true
